@@ -30,6 +30,8 @@ def universes(quick, idlike):
                     "maxlen": 2 if quick else 3, "syntax": "new", "typenames": ["t"], "pre": [], "post": []}),
         ("layout_query", {"mode": "layout", "alphabet": CH(["a", "A[]", "E<>", "A", "U", "[", "]", "<>", "-->", "control", ":", "Pr", "<=", "1", "0.5", "and", "&&", "imply"]),
                           "maxlen": 2 if quick else 3, "syntax": "property", "typenames": [], "pre": [], "post": []}),
+        ("numbers", {"mode": "all", "alphabet": CH(["0", "00", "1", "7", "2147483647", "2147483648", "2147483649", "4294967296", "4294967297", "99999999999", "214748364", ".", "e", "E", "+", "-", " ", "x"]),
+                     "maxlen": 3 if quick else 4, "syntax": "new", "typenames": [], "pre": [], "post": []}),
         ("all", {"mode": "all", "alphabet": CH(["a", "A", "1", "0", ".", "e", "+", "-", "<", "=", ">", "[", "]", " ", "\n", "/", "*", "\"", "\\", "!", "&", "|", ":", "?", "U", "#", "$", "@", "\r", "\t", "_", "(", ")"]),
                  "maxlen": 3 if quick else 4, "syntax": "new", "typenames": ["a"], "pre": [], "post": []}),
         ("all_old", {"mode": "all", "alphabet": CH(["a", "1", "<", "=", ">", ":", " ", "\n", "/", "*", "c", "o", "n", "s", "t"]), "maxlen": 3 if quick else 5, "syntax": "old", "typenames": [], "pre": [], "post": []}),
@@ -56,7 +58,7 @@ def shape(x):
     return [(t["t"], t["s"], t["n"]) for t in x["toks"]], x["errs"], x["cond"]
 
 
-def run(c, quick, prop):
+def run(c, quick, prop, only=None):
     gen = os.path.join(vf.lib_dir("plain"), "gen")
     env0 = {"LEX_RULES": os.path.join(gen, "lexer_rules.json"), "LEXEMES": os.path.join(gen, "lexemes.json")}
     n_texts = n_rel = drift = 0
@@ -67,11 +69,13 @@ def run(c, quick, prop):
     if len(idlike) < 5:
         raise vf.MachineryError("the extracted grammar has no NonTypeId alternatives: %s" % idlike)
     for name, params in universes(quick, idlike):
+        if only and name not in only:
+            continue
         params.setdefault("idlike", idlike)
         pf = os.path.join(c.run_dir, "lex_%s.json" % name)
         json.dump(params, open(pf, "w"))
         mc = vf.run_tlc("LexMC", "LexMC.cfg", c.run_dir, env=dict(env0, LEX_PARAMS=pf), timeout=3000, xmx="8g", keep_out=False)
-        c.add_tlc("LexMC_" + name, mc, "the scanner of the working tree (extracted rules, flex semantics) on every text of the universe `%s`: Total, Offsets, CommentOpaque, LineOpaque, LayoutFree, NamesAreNames" % name)
+        c.add_tlc("LexMC_" + name, mc, "the scanner of the working tree (extracted rules, flex semantics) on every text of the universe `%s`: Total, LeavesInitial, Offsets, CommentOpaque, LineOpaque, LayoutFree, NamesAreNames" % name)
         if mc.violated:
             c.finding("%s:scanner:%s:%s" % (prop.lower(), name, mc.violated), "on the scanner rules of the working tree, %s fails in the universe `%s` (Lex.tla: longest match over the rules of lexer.l)" % (mc.violated, name),
                       {"entry": "LexMC", "universe": name, "params": params, "invariant": mc.violated, "tlc_trace_tail": mc.out[-2500:] if getattr(mc, "out", None) else ""})
@@ -104,6 +108,9 @@ def run(c, quick, prop):
                 continue
             n_texts += 1
             got = norm_real(rr)
+            if rr["after"] != 2:
+                c.finding("%s:scanner:start-condition-left-behind" % prop.lower(), "after the real scanner has scanned %s to its end, the next text `x y` is read as %d tokens instead of 2: the start condition outlives the call" % (json.dumps(txt), rr["after"]),
+                          {"entry": "scan_run", "universe": name, "text": txt, "syntax": params["syntax"]})
             # a token the grammar does not declare (the scanner returns a backslash and a double quote as character tokens) is bison's `invalid token`
             want = {"toks": [dict(t, t=(t["t"] if t["t"] in grammar_tokens else "invalid token")) for t in e["toks"]], "errs": list(e["errs"]), "expect": list(e["expect"]), "lines": e["lines"], "cond": e["cond"] if e["cond"] == "INITIAL" else "other"}
             if got != want:
